@@ -11,7 +11,8 @@ Section Agg.
   Notation T := (T N).
 
   (* ---- data ---- *)
-  Inductive value := VNum (x : T) | VStr (s : string) | VBool (b : bool) | VNone.
+  Inductive value := VNum (x : T) | VStr (s : string) | VBool (b : bool) | VNone
+                   | VVec (l : list T).            (* a tuple of numbers (vector Bags) *)
   Definition datum := list value.
   Inductive qres := QV (v : value) | QRaise.
 
@@ -81,11 +82,32 @@ Section Agg.
 
   (* ---- leaves ---- *)
   Inductive trans := TId | TSq.                    (* Count's weight transform *)
-  Inductive brange := RS | RN.                     (* Bag range: strings / numbers *)
+  Inductive brange := RS | RN | RV (n : nat).      (* Bag range: strings / numbers / vectors "N<n>" *)
   Inductive leafkind :=
   | LCount (tr : trans) | LSum | LAverage | LDeviate | LMin | LMax | LBag (r : brange).
 
-  Inductive bagkey := BNum (x : T) | BNan | BStr (s : string).
+  (* a vector key: the components, None standing for the string "nan" *)
+  Inductive bagkey := BNum (x : T) | BNan | BStr (s : string) | BVec (l : list (option T)).
+
+  (* one component: numbers by <, "nan" last (bag.py Sorter) *)
+  Definition comp_cmp (a b : option T) : comparison :=
+    match a, b with
+    | Some x, Some y =>
+        if nisnan x then (if nisnan y then Eq else Gt)
+        else if nisnan y then Lt
+        else if x <? y then Lt else if x =? y then Eq else Gt
+    | Some _, None => Lt
+    | None, Some _ => Gt
+    | None, None => Eq
+    end.
+
+  Fixpoint vec_cmp (a b : list (option T)) : comparison :=
+    match a, b with
+    | [], [] => Eq
+    | [], _ => Lt
+    | _, [] => Gt
+    | x :: a', y :: b' => match comp_cmp x y with Eq => vec_cmp a' b' | c => c end
+    end.
 
   Definition bag_cmp (a b : bagkey) : comparison :=
     match a, b with
@@ -101,6 +123,9 @@ Section Agg.
     | BNan, _ => Lt
     | _, BNan => Gt
     | BStr x, BStr y => str_cmp x y
+    | BStr _, _ => Lt
+    | _, BStr _ => Gt
+    | BVec x, BVec y => vec_cmp x y
     end.
 
   (* le: entries; l1: sum / mean / min / max; l2: varianceTimesEntries; lv: Bag values *)
@@ -186,6 +211,10 @@ Section Agg.
         match r, v with
         | RS, VStr x => ok (BStr x)
         | RS, _ => None
+        | RV n, VVec l =>
+            if Nat.eqb (List.length l) n
+            then ok (BVec (map (fun x => if nisnan x then None else Some x) l)) else None
+        | RV _, _ => None
         | RN, _ =>
             match as_real v with
             | Some q => ok (if nisnan q then BNan else BNum q)
